@@ -115,6 +115,45 @@ def unstate(value: typing.Optional[bytes]) -> Term:
     return cached
 
 
+def stamp(value: Term, epoch: typing.Optional[str], memo: typing.Optional[dict] = None) -> Term:
+    """Label every not yet labelled application in the term with the epoch (what actors created under VERIF_EPOCH=epoch
+    produce); applications inside older states keep the label of the run that computed them."""
+    if not epoch:
+        return value
+    memo = {} if memo is None else memo
+
+    def visit(node):
+        if not isinstance(node, Term):
+            return node
+        done = memo.get(node.dg)
+        if done is None:
+            args = tuple(visit(a) for a in node.args)
+            if node.op == 'app' and '#' not in args[0]:
+                args = (f'{args[0]}#{epoch}',) + args[1:]
+            done = memo[node.dg] = Term(node.op, *args)
+        return done
+
+    return visit(value)
+
+
+def unstamp(value: Term, memo: typing.Optional[dict] = None) -> Term:
+    """Drop all epoch labels."""
+    memo = {} if memo is None else memo
+
+    def visit(node):
+        if not isinstance(node, Term):
+            return node
+        done = memo.get(node.dg)
+        if done is None:
+            args = tuple(visit(a) for a in node.args)
+            if node.op == 'app':
+                args = (args[0].split('#')[0],) + args[1:]
+            done = memo[node.dg] = Term(node.op, *args)
+        return done
+
+    return visit(value)
+
+
 def _log(path: typing.Optional[str], record: dict) -> None:
     """Append one observation line (O_APPEND => safe across threads and processes for small writes)."""
     if path:
@@ -136,21 +175,27 @@ class Stateless(flow.Actor):
     appended to that file so that any backend (threads, processes) can be observed from outside.
     """
 
-    def __init__(self, name: str, nout: int = 1, log: typing.Optional[str] = None):
+    def __init__(self, name: str, nout: int = 1, log: typing.Optional[str] = None, epoch: typing.Optional[str] = None):
+        import os
+
         self.name = name
         self.nout = nout
         self.log = log
+        #: hyper-parameter "of the current code": taken from the deployment environment when the actor is created; when set
+        #: every application is labelled ``name#epoch`` so an observer sees which hyper-parameters the actor ran with
+        self.epoch = epoch if epoch is not None else os.environ.get('VERIF_EPOCH')
         self.state: typing.Optional[Term] = None
 
     def apply(self, *features):
-        result = Term('app', self.name, self.state or NONE, *(term(f) for f in features if f is not None))
+        label = f'{self.name}#{self.epoch}' if self.epoch else self.name
+        result = Term('app', label, self.state or NONE, *(term(f) for f in features if f is not None))
         _log(self.log, {'n': self.name, 'k': 'apply', 'dg': result.dg})
         if self.nout > 1:
             return tuple(Term('out', i, result) for i in range(self.nout))
         return result
 
     def get_params(self):
-        return {'name': self.name, 'nout': self.nout, 'log': self.log}
+        return {'name': self.name, 'nout': self.nout, 'log': self.log, 'epoch': self.epoch}
 
     def set_params(self, **params):
         for key, value in params.items():
@@ -165,11 +210,19 @@ class Stateful(Stateless):
         _log(self.log, {'n': self.name, 'k': 'train', 'dg': self.state.dg})
 
     def get_state(self) -> bytes:
-        return pickle.dumps(self.state) if self.state is not None else b''
+        if self.state is None:
+            return b''
+        if self.epoch:  # whole-model snapshot codec: the encoded state carries the configuration it was trained under
+            return pickle.dumps(('snapshot', self.epoch, self.state))
+        return pickle.dumps(self.state)
 
     def set_state(self, state: bytes) -> None:
         if state:
-            self.state = unstate(state)
+            loaded = pickle.loads(state)
+            if isinstance(loaded, tuple) and loaded and loaded[0] == 'snapshot':
+                _, self.epoch, self.state = loaded
+            else:
+                self.state = unstate(state)
 
 
 def builder(name: str, stateful: bool = False, nout: int = 1, log: typing.Optional[str] = None) -> 'flow.Builder':
